@@ -47,6 +47,9 @@ pub struct Case {
     /// leaves with all temporaries dropped, the first `n + 1` programs of the canonical (<= 2 operator) order
     #[serde(default)]
     pub fresh_sequence_upto: Option<u64>,
+    /// leaf value table (0 ordinary, 1 widely different magnitudes)
+    #[serde(default)]
+    pub leafset: u8,
 }
 
 pub trait RN: Clone + Send + Sync {
@@ -222,14 +225,15 @@ fn judge_dual2(d: &Dual2, rf: &RefDual, pv: f64) -> Result<(), (String, String)>
 impl RN for Dual {
     const SECOND: bool = false;
     fn make_leaves() -> Vec<Dual> {
-        let l3 = Dual::try_new(2.1, vec![s("y"), s("x")], vec![2.0, -1.0]).unwrap();
-        let l5 = Dual::new_from(&l3, 0.7, vec![s("x")]);
+        let t = LT[leafset()];
+        let l3 = Dual::try_new(t[3], vec![s("y"), s("x")], vec![t[5], t[6]]).unwrap();
+        let l5 = Dual::new_from(&l3, t[0], vec![s("x")]);
         vec![
-            Dual::new(0.7, vec![s("x")]),
-            Dual::new(1.3, vec![s("y")]),
-            Dual::new(-0.6, vec![s("w")]),
+            Dual::new(t[0], vec![s("x")]),
+            Dual::new(t[1], vec![s("y")]),
+            Dual::new(t[2], vec![s("w")]),
             l3,
-            Dual::new(0.9, vec![]),
+            Dual::new(t[4], vec![]),
             l5,
             Dual::new(0.0, vec![s("y")]),
             Dual::new(1.0, vec![s("x")]),
@@ -269,21 +273,21 @@ pub struct Pair {
     pub d1: Dual,
 }
 
-pub const H3: [(usize, usize, f64); 3] = [(1, 1, 0.5), (1, 0, -0.25), (0, 0, 1.5)]; // (name idx, name idx, true 2nd partial)
 
 impl RN for Pair {
     const SECOND: bool = true;
     fn make_leaves() -> Vec<Pair> {
         let d1 = Dual::make_leaves();
         // leaf 3: names [y, x]; stored half-Hessian in that order
-        let l3 = Dual2::try_new(2.1, vec![s("y"), s("x")], vec![2.0, -1.0], vec![0.25, -0.125, -0.125, 0.75]).unwrap();
-        let l5 = Dual2::new_from(&l3, 0.7, vec![s("x")]);
+        let t = LT[leafset()];
+        let l3 = Dual2::try_new(t[3], vec![s("y"), s("x")], vec![t[5], t[6]], vec![0.5 * t[7], 0.5 * t[8], 0.5 * t[8], 0.5 * t[9]]).unwrap();
+        let l5 = Dual2::new_from(&l3, t[0], vec![s("x")]);
         let d2 = vec![
-            Dual2::new(0.7, vec![s("x")]),
-            Dual2::new(1.3, vec![s("y")]),
-            Dual2::new(-0.6, vec![s("w")]),
+            Dual2::new(t[0], vec![s("x")]),
+            Dual2::new(t[1], vec![s("y")]),
+            Dual2::new(t[2], vec![s("w")]),
             l3,
-            Dual2::new(0.9, vec![]),
+            Dual2::new(t[4], vec![]),
             l5,
             Dual2::new(0.0, vec![s("y")]),
             Dual2::new(1.0, vec![s("x")]),
@@ -343,23 +347,40 @@ impl RN for Pair {
 
 // ---- reference leaves & plain evaluation ---------------------------------------------------
 
-pub const X0: [f64; 3] = [0.7, 1.3, -0.6];
+/// leaf value tables: 0 = ordinary magnitudes, 1 = widely different magnitudes
+pub static LEAFSET: std::sync::atomic::AtomicU8 = std::sync::atomic::AtomicU8::new(0);
+pub fn leafset() -> usize {
+    LEAFSET.load(std::sync::atomic::Ordering::Relaxed) as usize
+}
+pub fn set_leafset(k: u8) {
+    LEAFSET.store(k, std::sync::atomic::Ordering::Relaxed)
+}
+/// per table: x, y, w, v, const, d v/dy, d v/dx, H_yy, H_yx, H_xx of the two-name leaf
+pub const LT: [[f64; 10]; 2] = [
+    [0.7, 1.3, -0.6, 2.1, 0.9, 2.0, -1.0, 0.5, -0.25, 1.5],
+    [1.5e6, 2.5e-6, -4.0e3, 7.0e-3, 3.0e5, 2.0e3, -1.0e-9, 5.0e8, -2.5e-4, 1.5e-13],
+];
+pub fn x0() -> [f64; 3] {
+    let t = LT[leafset()];
+    [t[0], t[1], t[2]]
+}
 
 fn ref_leaf(i: u8, second: bool) -> RefDual {
+    let t = LT[leafset()];
     match i {
-        0 => RefDual::leaf(0.7, &[(0, 1.0)]),
-        1 => RefDual::leaf(1.3, &[(1, 1.0)]),
-        2 => RefDual::leaf(-0.6, &[(2, 1.0)]),
+        0 => RefDual::leaf(t[0], &[(0, 1.0)]),
+        1 => RefDual::leaf(t[1], &[(1, 1.0)]),
+        2 => RefDual::leaf(t[2], &[(2, 1.0)]),
         3 => {
-            let r = RefDual::leaf(2.1, &[(1, 2.0), (0, -1.0)]);
+            let r = RefDual::leaf(t[3], &[(1, t[5]), (0, t[6])]);
             if second {
-                r.with_hess(&H3)
+                r.with_hess(&[(1, 1, t[7]), (1, 0, t[8]), (0, 0, t[9])])
             } else {
                 r
             }
         }
-        4 => RefDual::constant(0.9),
-        5 => RefDual::leaf(0.7, &[(1, 0.0), (0, 1.0)]),
+        4 => RefDual::constant(t[4]),
+        5 => RefDual::leaf(t[0], &[(1, 0.0), (0, 1.0)]),
         6 => RefDual::leaf(0.0, &[(1, 1.0)]),
         _ => RefDual::leaf(1.0, &[(0, 1.0)]),
     }
@@ -367,22 +388,23 @@ fn ref_leaf(i: u8, second: bool) -> RefDual {
 
 /// leaves as plain functions of the three independent variables
 fn plain_leaf(i: u8, p: &[f64; 3], second: bool) -> f64 {
+    let t = LT[leafset()];
     match i {
         0 => p[0],
         1 => p[1],
         2 => p[2],
         3 => {
-            let (dx, dy) = (p[0] - X0[0], p[1] - X0[1]);
-            let mut v = 2.1 + 2.0 * dy - dx;
+            let (dx, dy) = (p[0] - t[0], p[1] - t[1]);
+            let mut v = t[3] + t[5] * dy + t[6] * dx;
             if second {
-                v += 0.5 * (0.5 * dy * dy + 2.0 * (-0.25) * dx * dy + 1.5 * dx * dx);
+                v += 0.5 * (t[7] * dy * dy + 2.0 * t[8] * dx * dy + t[9] * dx * dx);
             }
             v
         }
-        4 => 0.9,
+        4 => t[4],
         5 => p[0],
-        6 => p[1] - X0[1],
-        _ => p[0] - X0[0] + 1.0,
+        6 => p[1] - t[1],
+        _ => p[0] - t[0] + 1.0,
     }
 }
 
@@ -619,14 +641,14 @@ fn build_and_check<T: RN>(pool: &Pool<T>, node: &Node, k: usize, expand_forms: b
         acc.eval();
         match guarded(|| run(form)) {
             Err(msg) => {
-                acc.violate(&format!("{}/panic/{}", prop, opname), idx, json!({"expr": pool.expr(node), "form": form}), json!("a value"), json!(msg));
+                acc.violate(&format!("{}/panic/{}", prop, opname), idx, json!({"expr": pool.expr(node), "form": form, "leafset": leafset()}), json!("a value"), json!(msg));
             }
             Ok(got) => {
                 if let Err((kind, msg)) = got.judge(&rf, pv) {
                     acc.violate(
                         &format!("{}/{}/{}{}", prop, kind, opname, if form == 0 { "" } else { "/owned-form" }),
                         idx,
-                        json!({"expr": pool.expr(node), "form": form}),
+                        json!({"expr": pool.expr(node), "form": form, "leafset": leafset()}),
                         json!({"value": pv, "gradient_xyw": [rf.val.g[0], rf.val.g[1], rf.val.g[2]]}),
                         json!(msg),
                     );
@@ -644,7 +666,7 @@ fn build_and_check<T: RN>(pool: &Pool<T>, node: &Node, k: usize, expand_forms: b
             let c = T::constant(LITS[*l as usize]);
             if let Ok(got) = guarded(|| T::bin(&e(a).real, &c, *op, 0)) {
                 if let Err((kind, msg)) = got.judge(&rf, pv) {
-                    acc.violate(&format!("{}/promoted-constant/{}/{}", prop, kind, opname), idx, json!({"expr": pool.expr(node), "promoted": true}), json!(pv), json!(msg));
+                    acc.violate(&format!("{}/promoted-constant/{}/{}", prop, kind, opname), idx, json!({"expr": pool.expr(node), "promoted": true, "leafset": leafset()}), json!(pv), json!(msg));
                 }
             }
         }
@@ -653,7 +675,7 @@ fn build_and_check<T: RN>(pool: &Pool<T>, node: &Node, k: usize, expand_forms: b
             let c = T::constant(LITS[*l as usize]);
             if let Ok(got) = guarded(|| T::bin(&c, &e(b).real, *op, 0)) {
                 if let Err((kind, msg)) = got.judge(&rf, pv) {
-                    acc.violate(&format!("{}/promoted-constant/{}/{}", prop, kind, opname), idx, json!({"expr": pool.expr(node), "promoted": true}), json!(pv), json!(msg));
+                    acc.violate(&format!("{}/promoted-constant/{}/{}", prop, kind, opname), idx, json!({"expr": pool.expr(node), "promoted": true, "leafset": leafset()}), json!(pv), json!(msg));
                 }
             }
         }
@@ -683,8 +705,8 @@ fn fd_validate<T: RN>(pool: &Pool<T>, upto_level: usize) -> (u64, Option<String>
         }
         let h = 1e-5;
         for i in 0..3 {
-            let mut pp = X0;
-            let mut pm = X0;
+            let mut pp = x0();
+            let mut pm = x0();
             pp[i] += h;
             pm[i] -= h;
             let fd = (f(&pp) - f(&pm)) / (2.0 * h);
@@ -702,13 +724,13 @@ fn fd_validate<T: RN>(pool: &Pool<T>, upto_level: usize) -> (u64, Option<String>
             for i in 0..3 {
                 for j in i..3 {
                     let g = |si: f64, sj: f64| {
-                        let mut p = X0;
+                        let mut p = x0();
                         p[i] += si * h;
                         p[j] += sj * h;
                         f(&p)
                     };
                     let fd = if i == j {
-                        (g(1.0, 0.0) - 2.0 * f(&X0) + g(-1.0, 0.0)) / (h * h)
+                        (g(1.0, 0.0) - 2.0 * f(&x0()) + g(-1.0, 0.0)) / (h * h)
                     } else {
                         (g(1.0, 1.0) - g(1.0, -1.0) - g(-1.0, 1.0) + g(-1.0, -1.0)) / (4.0 * h * h)
                     };
@@ -729,6 +751,14 @@ fn fd_validate<T: RN>(pool: &Pool<T>, upto_level: usize) -> (u64, Option<String>
 
 /// Explore every program with <= kfull operators with all ownership forms at the root, then levels
 /// kfull+1 ..= kmax in the canonical (borrowed) form only. Levels < kmax are stored as sub-programs.
+/// the second value table (magnitudes from 1e-13 to 1e8): every program of <= `k` operators, all forms
+pub fn explore_magnitudes<T: RN>(prop: &str, k: usize) -> (Acc, serde_json::Value) {
+    set_leafset(1);
+    let r = explore_programs::<T>(&format!("{}/magnitudes", prop), k, k, 99);
+    set_leafset(0);
+    r
+}
+
 pub fn explore_programs<T: RN>(prop: &str, kfull: usize, kmax: usize, fd_level: usize) -> (Acc, serde_json::Value) {
     let leaves = T::make_leaves();
     let mut pool: Pool<T> = Pool { ents: vec![], lvl: vec![] };
@@ -838,10 +868,10 @@ fn fresh_pass<T: RN>(prop: &str, pool: &Pool<T>, upto: usize, stop_after: Option
         match r {
             Ok(local) => {
                 for v in local.violations {
-                    acc.violate(&v.key, seq as u64, json!({"expr": ex, "fresh_sequence_upto": seq}), v.expected, json!(format!("as evaluation #{} in a sequence of fresh evaluations: {}", seq, v.observed)));
+                    acc.violate(&v.key, seq as u64, json!({"expr": ex, "fresh_sequence_upto": seq, "leafset": leafset()}), v.expected, json!(format!("as evaluation #{} in a sequence of fresh evaluations: {}", seq, v.observed)));
                 }
             }
-            Err(m) => acc.violate(&format!("{}/after-other-evaluations/panic", prop), seq as u64, json!({"expr": ex, "fresh_sequence_upto": seq}), json!("a value"), json!(m)),
+            Err(m) => acc.violate(&format!("{}/after-other-evaluations/panic", prop), seq as u64, json!({"expr": ex, "fresh_sequence_upto": seq, "leafset": leafset()}), json!("a value"), json!(m)),
         }
         if acc.violations.len() > before + 8 {
             break;
@@ -931,6 +961,7 @@ fn eval_expr<T: RN>(ex: &Expr, leaves: &[T], forms: bool, acc: &mut Acc, prop: &
 }
 
 pub fn replay_case<T: RN>(prop: &str, case: &Case, _idx: u64, acc: &mut Acc) {
+    set_leafset(case.leafset);
     if let Some(n) = case.fresh_sequence_upto {
         // rebuild the (deterministic) pool of <= 2-operator programs, then replay the sequential pass
         let leaves = T::make_leaves();
